@@ -120,12 +120,19 @@ class Engine(Executor, Calls):
                             cl.ast = parse_expr(cl.text)
                         elif cl.kind == "nonnil":
                             cl.extra["fields"] = [x.strip() for x in cl.text.split(",") if x.strip()]
-                elif d.kind in ("lemma", "axiom", "define"):
+                elif d.kind == "define":
+                    import re
+                    m = re.match(r"^\(([^)]*)\)\s*=>\s*(.*)$", d.clauses[0].text.strip(), re.S)
+                    if not m:
+                        raise SpecError("define syntax: define [name]: (a, b) => expr")
+                    self.defines[d.name] = ([x.strip() for x in m.group(1).split(",") if x.strip()], parse_expr(m.group(2)))
+                elif d.kind in ("lemma", "axiom"):
                     pass
             except SpecError as e:
                 self.errors.append("%s:%d: %s" % (d.file, d.line, e))
 
     pure_methods_by_iface = {}
+    defines = {}
 
     def resolve_type_name(self, name, pkg):
         ir = self.ir
@@ -148,6 +155,9 @@ class Engine(Executor, Calls):
             return ir.by_short[name]["name"]
         if d.kind == "extern":
             return name
+        c = ir.by_alias.get(name)
+        if c and len(c) == 1:
+            return c[0]["name"]
         # same package bare name
         cand = d.pkg + "." + name
         if cand in ir.funcs:
@@ -576,6 +586,94 @@ class Engine(Executor, Calls):
         return sorted(set(bad))
 
 
+def _lemma_methods():
+    import re
+
+    def verify_lemma(self, decl):
+        """lemma [label] {Cxx}: [foreach E in (A, B) ::] forall s State, ... :: body   (FSM layer builtins available)"""
+        from .fsm import FSM, STATE_T
+        if self.fsm is None:
+            self.fsm = FSM(self)
+        fsm = self.fsm
+        cl = decl.clauses[0]
+        text = cl.text.strip()
+        self.cur = {"short": short(decl.pkg) + ".fsm", "props": set(decl.tags), "safety_props": set(decl.tags), "decl": decl, "fn": None}
+        o = self.obl("lemma", decl.name, decl.tags)
+        if fsm.problems:
+            o.instances += 1
+            o.failed.append({"reason": "FSM extraction: " + "; ".join(fsm.problems)})
+            self.cur = None
+            return
+        m = re.match(r"^foreach\s+(\w+)\s+in\s+\(([^)]*)\)\s*(?:except\s*\(([^)]*)\))?\s*::\s*(.*)$", text, re.S)
+        if m:
+            var, lst, exc, body = m.group(1), m.group(2).strip(), m.group(3), m.group(4)
+            byname = {v: k for k, v in fsm.event_names.items()}
+            if lst == "*":
+                codes = sorted(fsm.events)
+            else:
+                codes = []
+                for n in [x.strip() for x in lst.split(",") if x.strip()]:
+                    if n not in byname or byname[n] not in fsm.events:
+                        o.instances += 1
+                        o.failed.append({"reason": "event %s has no builder in ChannelEvents" % n})
+                        continue
+                    codes.append(byname[n])
+            if exc:
+                ex = [byname[x.strip()] for x in exc.split(",") if x.strip()]
+                codes = [c for c in codes if c not in ex]
+            items = [(var, c) for c in codes]
+        else:
+            body = text
+            items = [(None, None)]
+        ast = parse_expr(body)
+        binders = []
+        while ast[0] == "forall":
+            binders += ast[1]
+            ast = ast[2]
+        for (var, code) in items:
+            st = State(self)
+            for k, v in fsm.st0.heap.items():
+                st.heap.setdefault(k, v)
+            names = {}
+            if var:
+                names[var] = z3.IntVal(code)
+            ctx = SpecCtx(self, st, st, names, fr_pkg=MOD + "/channels")
+            for (x, T) in binders:
+                t = self.spec_type(ctx, T)
+                v = st.from_uf(t, x, [])
+                ctx.bound[x] = v
+                ctx.tag(v, t)
+            try:
+                goal = to_bool(ctx.eval(ast))
+            except (SpecError, Unsupported) as e:
+                o.instances += 1
+                o.unknown.append({"reason": "spec error: %s" % e, "event": fsm.event_names.get(code)})
+                continue
+            n_before = len(o.failed)
+            self.record(o, st, goal, None)
+            if len(o.failed) > n_before and var:
+                o.failed[-1]["event"] = fsm.event_names.get(code)
+                md = o.failed[-1].get("model") or {}
+                if "s.Status" in md:
+                    o.failed[-1]["status"] = fsm.status_names.get(int(md["s.Status"]), md["s.Status"])
+        self.cur = None
+
+    def spec_type(self, ctx, T):
+        from .fsm import STATE_T
+        alias = {"State": STATE_T, "Status": MOD + ".Status", "TypedVoucher": MOD + ".TypedVoucher", "ChannelID": MOD + ".ChannelID",
+                 "PeerID": "github.com/libp2p/go-libp2p/core/peer.ID"}
+        if T in alias:
+            return alias[T]
+        if T in ("int", "int64", "uint64", "bool", "string", "error"):
+            return T
+        return ctx.resolve_type(T)
+
+    return verify_lemma, spec_type
+
+
+Engine.verify_lemma, Engine.spec_type = None, None
+
+
 def split_top(s):
     out, depth, cur = [], 0, ""
     for ch in s:
@@ -617,3 +715,6 @@ def first_model(st):
     if s.check() == z3.sat:
         return model_to_dict(s.model())
     return None
+
+
+Engine.verify_lemma, Engine.spec_type = _lemma_methods()
